@@ -71,7 +71,9 @@ CHECKS = {
              "acquisition's storage was started, the frames the client has consumed are a run of consecutive frames of this acquisition's camera "
              "run - consecutive ids, this run's payload, no gap, repeat, reordering or stale frame (C06_consecutive_fresh); monitor activity never "
              "changes what reaches storage (C06_no_effect_on_storage); when stop or abort returns a registered monitor reader is drained and holds "
-             "nothing (C06_flushed_at_return), so it is fresh at the next start; acquire_map_read has no failing transition (C06_map_never_fails). "
+             "nothing (C06_flushed_at_return) and it stays drained, whatever the client does in between, until the next acquisition's storage is "
+             "started, where it is therefore fresh (C06_fresh_in_next_acquisition, a trace theorem over every continuation); acquire_map_read has "
+             "no failing transition (C06_map_never_fails). "
              "Tied to the code by the trace-acceptance check of C04 with client scripts (poll patterns, partial consumption, long holds, monitor "
              "thread concurrent with stop/abort, up to 3 acquisitions); the oracle compares ids and pixel hashes (acquisition-tagged) of every "
              "frame the client consumed. Known finding (recorded, not repaired): a reader that registers for the first time in a later "
@@ -95,7 +97,9 @@ CHECKS = {
              "event of a worker thread strictly decreases, except the sink's polls of its queue while it has not been told to stop or nothing "
              "mapped is old enough, and a join marker (C07_winddown_progress; a poll adds at most 2, client events add nothing: "
              "C07_winddown_poll_bound, C07_winddown_client_neutral), and while a worker is alive some worker event that decreases the measure "
-             "is enabled - no deadlock (C07_winddown_no_deadlock; invariant group 5 relates the stop flags to the program counters). Fairness "
+             "is enabled - no deadlock (C07_winddown_no_deadlock; invariant group 5 relates the stop flags to the program counters); the same "
+             "certificate, with a measure that also counts the frames the source may still deliver, for the whole time acquire_stop waits for "
+             "the workers, plain stop of a finite acquisition included (C07_stop_progress, C07_stop_poll_bound, C07_stop_no_deadlock). Fairness "
              "of the OS scheduler, the wake-up of a blocked writer (C03) and the passing of time remain assumptions; the deterministic "
              "scheduler's deadlock / step-limit detector checks the real runtime on every run. Tied to the code by the trace-acceptance check of "
              "C04 with abort/stop at random scheduling points, triggers, unbounded acquisitions, averaging on/off, followed by further acquisitions.",
